@@ -363,6 +363,13 @@ def run_behavior_class(ctx: Ctx, res: Result, pipeline: S.Sym, roles: dict[str, 
     else:
         o = hits[0]
         rj = f_or([r.cond for r in rejections(sym)])
+        known = {f"bool({q})" for q in init.param_names} | {f"{q} is None" for q in init.param_names} | {f"bool({v})" for v in bound.values()} | {f"{v} is None" for v in bound.values()}
+        foreign = sorted(a for a in atoms_of(rj) if a not in known)
+        if foreign:
+            # the conditions under which the constructor raises are not expressed over its arguments: a value travelled
+            # through something the symbolic run does not model, the decision table cannot be read off
+            res.undecide("C13.R5", construct, f"the conditions under which {ci.name} rejects its arguments depend on values the symbolic run could not relate to the constructor arguments ({', '.join(foreign[:3])}): the decision table of the verb check was not extracted", where(init, init.node))
+            return True
         res.add("C13.R5", construct, False, f"{ci.name} can be constructed with should_not combined with another verb: it raises under `{show(rj)[:200]}`, required: `{show(want)}` (should_not combined with should / should_only must be rejected)", where_o(o), kind="decision-table")
     return ok
 
@@ -460,14 +467,23 @@ def run_layer_rule(ctx: Ctx, res: Result) -> None:
     sym = ctx.run(an)
     rets = [o for o in sym.outcomes if o.kind == "return"]
     ok, detail = False, "are_named() never uses a requested layer name as a raising subscript of the layer definition: a rule naming a layer that was never defined gets a verdict"
+    evidence = False  # something was seen that looks a requested layer name up without raising for an unknown one
+    for ev in sym.events:
+        if ev.args and ev.args[0] is not None and sym.deps(ev.args[0]) == frozenset({p}) and ((ev.kind == "call" and ev.name in ("get", "setdefault", "pop", "__contains__")) or ev.kind == "member"):
+            evidence = True
+            detail = f"`{norm(ev.node, 50)}` in {ev.ctx.qualname} looks a requested layer name up without raising for an undefined one, and no raising subscript of the layer definition is evaluated for every requested layer: a rule naming a layer that was never defined gets a verdict"
     for ev in sym.events:
         if ev.kind != "subscript" or not ev.args:
             continue
         idx = ev.args[0]
+        if isinstance(idx, Opq) and idx.deps == frozenset({p}) and idx.kind not in ("elem", "param"):
+            evidence = True  # e.g. layers[0]: one particular name only
+            detail = f"`{norm(ev.node, 50)}` is not evaluated for every requested layer: a rule naming a layer that was never defined can get a verdict"
         if not (isinstance(idx, Opq) and idx.kind in ("elem", "param") and idx.deps == frozenset({p})):
             continue
         if not any(m_[0] == "b" and m_[1] == "dict" for m_ in members(ev.recv_type)):
             continue
+        evidence = True
         if swallowed(sym, ev, {"KeyError", "LookupError", "Exception", "BaseException", "<bare>"}, bad_outcomes(sym)):
             detail = f"the KeyError of `{norm(ev.node, 50)}` for an undefined layer is caught and are_named() carries on"
             continue
@@ -480,8 +496,11 @@ def run_layer_rule(ctx: Ctx, res: Result) -> None:
             ok, detail = True, f"each requested layer name is looked up with `{norm(ev.node, 50)}` (KeyError for an undefined layer) on every path"
             break
         detail = f"`{norm(ev.node, 50)}` is not evaluated for every requested layer on every path: a rule naming a layer that was never defined can get a verdict"
+    hand = _handoffs(sym, p) if not ok and not evidence else []
     if not rets:
         res.undecide("C13.R6", repo.key(an, "layer lookup"), "LayerRule.are_named never returns normally in the symbolic run", where(an, an.node))
+    elif hand:
+        res.undecide("C13.R6", f"{an.relpath}::LayerRule.are_named::every requested layer is looked up", f"the requested layer names are handed to `{norm(hand[0].node, 60)}` in {hand[0].ctx.qualname}, which the symbolic run could not follow, and no lookup of a layer name was seen at all: the lookup may happen in there", where(hand[0].ctx, hand[0].node))
     else:
         res.add("C13.R6", f"{an.relpath}::LayerRule.are_named::every requested layer is looked up", ok, detail, where(an, an.node), kind="dominance")
 
@@ -494,6 +513,12 @@ START_TAG, END_TAG = "@startuml", "@enduml"
 
 def _const_texts(deps: frozenset) -> str:
     return " ".join(sorted(d[6:] for d in deps if d.startswith("const:")))
+
+
+def _uninterpreted_tests(sym: S.Sym, path, k: str) -> list[str]:
+    """Atoms on `path` by which the symbolic run recorded a test of the search position `k` (or of arithmetic on it) that it
+    could not relate to 'found' / 'not found': whatever such a test guards is not evidence."""
+    return [n for c in path for n in atoms_of(c) if k in sym.uninterpreted.get(n, ())]
 
 
 def run_diagram_rule(ctx: Ctx, res: Result) -> None:
@@ -570,7 +595,9 @@ def run_diagram_rule(ctx: Ctx, res: Result) -> None:
             ev = blamed[0]
             o = verdicts[id(ev)][1]
             loc_ = f"{ev.ctx.relpath}:{getattr(ev.node, 'lineno', 0)}"
-            if must(o.path, ev.path):
+            if _uninterpreted_tests(sym, o.path, ev.result.key):
+                problems.append((tag, "?", ""))  # a test of the search result that the model could not interpret guards the verdict: no evidence
+            elif must(o.path, ev.path):
                 problems.append((tag, f"when `{norm(ev.node, 60)}` in {ev.ctx.qualname} does not find {tag}, {describe_outcome(o)} is still reached (the 'not found' outcome of this search is never tested): a diagram without {tag} no longer raises a parsing error", loc_))
             else:
                 problems.append((tag, f"{describe_outcome(o)} is reachable on a path on which the search for {tag} (`{norm(ev.node, 50)}`) does not run in this call (`{show(ev.cond)[:100]}` does not hold): nothing rejects a diagram without {tag} there", loc_))
@@ -589,6 +616,56 @@ def run_diagram_rule(ctx: Ctx, res: Result) -> None:
         raised = sorted({x.exc.split(".")[-1] for x in rejections(sym) for e_ in evs if e_.result.kind != "index" and sat_path(x.path, absent(e_))})
         res.add("C13.R2", construct, True, f"a diagram without {START_TAG} / {END_TAG} ({', '.join('`' + norm(e_.node, 40) + '`' for e_ in evs)} finds nothing) raises {', '.join(raised) or 'the error of the search itself'} and reaches no verdict", where(aa, aa.node), kind="dominance")
     _tag_order(sym, res, dr, aa, tagged, bad)
+    _end_relative_bounds(sym, res, dr, aa, tagged, bad)
+
+
+def _position_lower_bound(path, pos: Opq) -> int:
+    """Smallest value the search position `pos` can have under `path` (as far as the path says): -1 = 'not found' possible."""
+    import re
+
+    lb = 0 if pos.kind == "index" or implies_path(path, f_not(atom(f"notfound({pos.key})"))) else -1
+    if lb == 0:
+        for c in path:
+            for n in atoms_of(c):
+                m = re.fullmatch(re.escape(pos.key) + r" Gt (\d+)", n)
+                if m and int(m.group(1)) + 1 > lb and implies_path(path, atom(n)):
+                    lb = int(m.group(1)) + 1
+    return lb
+
+
+def _end_relative_bounds(sym: S.Sym, res: Result, dr: ClassInfo, aa: FuncInfo, tagged: list[S.Event], bad: list[S.Outcome]) -> None:
+    """`text.rfind(start, 0, end - 1)`: a negative upper bound counts from the END of the text.  When the bound is computed
+    from an earlier search position that may be too small (not found = -1, or found at an index below the displacement) the
+    search looks behind that position: a start tag behind the only end tag is 'found' and the file gets a verdict."""
+    construct = f"{dr.module.relpath}::DiagramRule.assert_applies::bounded tag search"
+    for b in tagged:
+        if not (b.result.kind in ("find", "index") and b.name in S.STR_SEARCH and len(b.args) == 3 and isinstance(b.args[2], Opq)):
+            continue
+        hi = b.args[2]
+        pos, d = (hi, 0) if hi.kind in ("find", "index") else (hi.meta if hi.kind == "offset" else (None, 0))
+        if pos is None or not any(t in _const_texts(pos.deps) for t in (START_TAG, END_TAG)):
+            continue
+        lb = _position_lower_bound(b.path, pos)
+        if lb + d >= 0:
+            continue
+        for o in bad:
+            if not must(o.path, b.path):
+                continue
+            names = [n for c in o.path for n in atoms_of(c)]
+            if any(pos.key in sym.uninterpreted.get(n, ()) or b.result.key in sym.uninterpreted.get(n, ()) for n in names):
+                continue  # a later test relates the result to the earlier position (or could not be interpreted): no evidence
+            if sat_path(o.path, atom(f"notfound({pos.key})")) and pos.kind == "find":
+                continue  # the missing tag itself still reaches the verdict: reported by 'missing tags raise'
+            res.add(
+                "C13.R2",
+                construct,
+                False,
+                f"the upper bound `{norm(b.node.args[2], 40)}` of `{norm(b.node, 60)}` in {b.ctx.qualname} is negative when the earlier tag is found at index {lb}{' or not at all' if lb < 0 else ''}: python then counts the bound from the end of the text, the search looks behind the earlier position, and a file whose {START_TAG} only follows its {END_TAG} (no tagged body) reaches {describe_outcome(o)} instead of raising a parsing error",
+                f"{b.ctx.relpath}:{getattr(b.node, 'lineno', 0)}",
+                kind="dominance",
+            )
+            return
+    res.add("C13.R2", construct, True, "no tag search is bounded by a position that can make the bound negative (end-relative)", where(aa, aa.node), nontrivial=False, kind="dominance")
 
 
 def _tag_order(sym: S.Sym, res: Result, dr: ClassInfo, aa: FuncInfo, tagged: list[S.Event], bad: list[S.Outcome]) -> None:
@@ -741,6 +818,119 @@ def _is_raising_lookup(ev: S.Event) -> bool:
     return ev.kind == "call" and ev.name in S.RAISING_NX and any(m[0] == "lib" and m[1].startswith("networkx") for m in members(ev.recv_type))
 
 
+def _nx_typed(ctx: Ctx, f: FuncInfo, e: ast.expr) -> bool:
+    try:
+        t = ctx.T.expr(f, e)
+    except Exception:  # noqa: BLE001
+        return False
+    return any(m[0] == "lib" and m[1].startswith("networkx") for m in members(t))
+
+
+def graph_tables(ctx: Ctx, ci: ClassInfo) -> dict[str, str]:
+    """Fields of a graph class that are lookup tables *of the graph*: assigned only while the object is constructed, from an
+    expression over the networkx graph the class wraps (its adjacency / nodes / edges), and never changed afterwards.  A key
+    found in such a table is a node (an edge) of the graph.  field -> text of the defining expression."""
+    cache = ctx.__dict__.setdefault("_graph_tables", {})
+    if ci.fq in cache:
+        return cache[ci.fq]
+    init = ctx.repo.lookup_method(ci, "__init__")
+    methods = [m for c in ctx.repo.mro(ci) for m in [*c.methods.values(), *c.extra_methods] if not isinstance(m.node, ast.Lambda)]
+    # methods that only run during construction: __init__ and private helpers it (transitively) calls that nothing else calls
+    ctor_only = {init.fq} if init is not None else set()
+    changed = True
+    while changed:
+        changed = False
+        for m in methods:
+            if m.fq in ctor_only or not m.name.startswith("_") or m.name.startswith("__"):
+                continue
+            callers = [g for g in methods if any(isinstance(c, ast.Call) and isinstance(c.func, ast.Attribute) and c.func.attr == m.name for c in ast.walk(g.node))]
+            if callers and all(g.fq in ctor_only for g in callers):
+                ctor_only.add(m.fq)
+                changed = True
+    stores: dict[str, list[tuple[FuncInfo, ast.expr | None]]] = {}
+    mutated: set[str] = set()
+    for m in methods:
+        if not m.param_names:
+            continue
+        me = m.param_names[0]
+        is_me = lambda x: isinstance(x, ast.Attribute) and isinstance(x.value, ast.Name) and x.value.id == me  # noqa: E731
+        for n in own_nodes(m.node):
+            if isinstance(n, (ast.Assign, ast.AnnAssign)):
+                for t in (n.targets if isinstance(n, ast.Assign) else [n.target]):
+                    if is_me(t):
+                        stores.setdefault(t.attr, []).append((m, n.value))
+            elif isinstance(n, ast.AugAssign) and is_me(n.target):
+                mutated.add(n.target.attr)
+            elif isinstance(n, ast.Call) and isinstance(n.func, ast.Attribute) and n.func.attr in S.COLL_MUTATORS and is_me(n.func.value) and m.fq not in ctor_only:
+                mutated.add(n.func.value.attr)
+            elif isinstance(n, ast.Subscript) and isinstance(n.ctx, (ast.Store, ast.Del)) and is_me(n.value) and m.fq not in ctor_only:
+                mutated.add(n.value.attr)
+            elif isinstance(n, ast.Delete):
+                for t in n.targets:
+                    if is_me(t):
+                        mutated.add(t.attr)
+    out: dict[str, str] = {}
+    for field, sts in stores.items():
+        if field in mutated or not all(m.fq in ctor_only and v is not None for m, v in sts):
+            continue
+        if all(any(isinstance(x, ast.Attribute) and _nx_typed(ctx, m, x) for x in ast.walk(v)) for m, v in sts):
+            if not any(_nx_typed(ctx, m, v) for m, v in sts):  # the wrapped graph itself is not a table
+                out[field] = norm(sts[0][1], 50)
+    cache[ci.fq] = out
+    return out
+
+
+def _table_of(ctx: Ctx, ev: S.Event, recv_node: ast.expr | None) -> str | None:
+    """Name of the graph table (see graph_tables) that `recv_node` - the container expression of the event - denotes."""
+    f = ev.ctx
+    if f is None or f.cls is None or not isinstance(recv_node, ast.Attribute) or not f.param_names:
+        return None
+    if not (isinstance(recv_node.value, ast.Name) and recv_node.value.id == f.param_names[0]):
+        return None
+    return recv_node.attr if recv_node.attr in graph_tables(ctx, f.cls) else None
+
+
+def certifiers(ctx: Ctx, sym: S.Sym, p: str) -> list[tuple[S.Event, Formula, str]]:
+    """Events that prove that the value derived from parameter `p` names something the graph knows, each with the condition
+    under which it has happened AND has proved it, and a description:
+      * networkx' raising successors / predecessors / neighbors (unknown node: NetworkXError) - unless a handler around the
+        call swallowed the error (`exc#n.i` = handler i of try n was entered);
+      * a hit in a lookup table of the graph (graph_tables): `table[k]` that did not raise into a swallowing handler,
+        `table.get(k)` that is not None, `k in table` that holds."""
+    out: list[tuple[S.Event, Formula, str]] = []
+
+    def not_swallowed(ev: S.Event, catching: set[str]) -> Formula:
+        return f_and([f_not(atom(f"exc#{n}.{i}")) for n, i, types in getattr(ev, "handler_entries", ()) if set(types) & catching and sym.handler_swallows.get((n, i), True)])
+
+    for ev in sym.events:
+        if not ev.args or ev.args[0] is None or sym.deps(ev.args[0]) != frozenset({p}):
+            continue
+        if _is_raising_lookup(ev):
+            out.append((ev, f_and([ev.cond, not_swallowed(ev, CATCHES_LOOKUP)]), f"networkx' raising {ev.name}()"))
+        elif ev.kind == "subscript" and isinstance(ev.node, ast.Subscript) and (t := _table_of(ctx, ev, ev.node.value)):
+            out.append((ev, f_and([ev.cond, not_swallowed(ev, {"KeyError", "LookupError", "Exception", "BaseException", "<bare>"})]), f"a hit in the graph's lookup table {t}"))
+        elif ev.kind == "call" and ev.name == "get" and len(ev.args) == 1 and isinstance(ev.node, ast.Call) and isinstance(ev.node.func, ast.Attribute) and isinstance(ev.result, Opq) and (t := _table_of(ctx, ev, ev.node.func.value)):
+            out.append((ev, f_and([ev.cond, f_not(atom(f"{ev.result.key} is None"))]), f"a hit in the graph's lookup table {t}"))
+        elif ev.kind == "member" and isinstance(ev.node, ast.Compare) and len(ev.node.comparators) == 1 and isinstance(ev.result, S.BoolV) and (t := _table_of(ctx, ev, ev.node.comparators[0])):
+            out.append((ev, f_and([ev.cond, ev.result.f]), f"a hit in the graph's lookup table {t}"))
+    return out
+
+
+def _handoffs(sym: S.Sym, p: str) -> list[S.Event]:
+    """Calls the symbolic run could not follow that received (a value derived from) `p`: the lookup may happen in there."""
+    out = []
+    for ev in sym.events:
+        if ev.kind != "call" or not isinstance(ev.result, Opq) or ev.result.kind != "call" or _is_raising_lookup(ev):
+            continue
+        vals = [a for a in [*ev.args, ev.recv] if a is not None]
+        if not any(p in sym.deps(a) for a in vals):
+            continue
+        ms = members(ev.recv_type)
+        if ev.recv_type[0] == "fn" or any(m[0] == "cls" for m in ms) or (ev.recv is None and ev.recv_type == ("unknown",)):
+            out.append(ev)
+    return out
+
+
 def run_lookups(ctx: Ctx, res: Result) -> None:
     repo = ctx.repo
     funcs = search_functions(ctx)
@@ -751,22 +941,23 @@ def run_lookups(ctx: Ctx, res: Result) -> None:
         if not rets:
             res.undecide("C13.R6", repo.key(fi, "returns"), "no normal return found in the symbolic run", where(fi, fi.node))
             continue
-        lookups = [ev for ev in sym.events if _is_raising_lookup(ev) and ev.args]
         kinds = {p: _filter_kind(ctx, fi, p) for p in fi.param_names}
         scalars = [p for p, k in kinds.items() if k == "scalar"]
         for p, k in kinds.items():
             if k not in ("scalar", "collection"):
                 continue
             n += 1
-            mine = [ev for ev in lookups if sym.deps(ev.args[0]) == frozenset({p})]
-            live = [ev for ev in mine if not swallowed(sym, ev, CATCHES_LOOKUP, rets)]
+            certs = certifiers(ctx, sym, p)
+            mine = [ev for ev, _c, _d in certs]
+            live = [(ev, c, d) for ev, c, d in certs if S.sat(c)]
             ok, detail, loc = False, "", where(fi, fi.node)
             if k == "scalar":
-                direct = [ev for ev in live if not ev.loops]
-                failing = [o for o in rets if not any(must(o.path, ev.path) for ev in direct)]
+                direct = [(ev, c, d) for ev, c, d in live if not ev.loops]
+                proved = f_or([c for _ev, c, _d in direct])
+                failing = [o for o in rets if not implies_path(o.path, proved)]
                 ok = not failing
                 if ok:
-                    detail = f"`{p}` reaches networkx' raising {direct[0].name}() on every path before the function returns"
+                    detail = f"`{p}` reaches {' / '.join(sorted({d for _e, _c, d in direct}))} on every path before the function returns"
                 else:
                     o = failing[0]
                     loc = where_o(o)
@@ -774,34 +965,46 @@ def run_lookups(ctx: Ctx, res: Result) -> None:
             else:
                 good = None
                 filtered_out = None
-                for ev in live:
-                    if not ev.loops:
-                        continue
-                    lc = ev.loops[0]
+                by_loop: dict[int, list] = {}
+                for ev, c, d in live:
+                    if ev.loops:
+                        by_loop.setdefault(ev.loops[0].n, []).append((ev, c, d))
+                for group in by_loop.values():
+                    lc = group[0][0].loops[0]
                     if lc.elem is None or not lc.elem.meta or lc.elem.meta[0] != p:
                         continue
                     skip = f_or([atom("{} == {}".format(*sorted([lc.elem.key, q]))) for q in scalars])
                     if lc.filt is not None and S.sat(f_and([f_not(lc.filt[1]), f_not(skip)])):
-                        filtered_out = (ev, lc)
+                        filtered_out = (group[0][0], lc)
                         continue  # the loop runs over a filtered copy that drops more than the elements equal to a scalar filter
-                    if all(not o.loops and must(o.path, lc.pre_path) for o in rets) and must(tuple(lc.pre_path) + (lc.iter_atom, f_not(skip)), ev.path):
-                        good = ev
+                    inside = [(ev, c, d) for ev, c, d in group if len(ev.loops) == 1]
+                    if all(not o.loops and must(o.path, lc.pre_path) for o in rets) and inside and implies_path(tuple(lc.pre_path) + (lc.iter_atom, f_not(skip)), _iteration_proves(lc, inside)):
+                        good = inside[0]
                         break
                 ok = good is not None
                 if ok:
-                    detail = f"every element of `{p}` is handed to networkx' raising {good.name}() on every path (skipped at most when equal to {' / '.join(scalars) or 'nothing'}, which is looked up itself)"
+                    detail = f"every element of `{p}` is handed to {" / ".join(sorted({d for _e, _c, d in inside}))} on every path (skipped at most when equal to {' / '.join(scalars) or 'nothing'}, which is looked up itself)"
                 else:
                     detail = f"an element of `{p}` can escape the raising graph lookup"
                     if filtered_out is not None:
                         detail += f": the loop `{header(filtered_out[1].node)[:60]}` only sees the elements that satisfy `{show(filtered_out[1].filt[1])[:160]}`, which drops more than the element equal to {' / '.join(scalars) or 'a scalar filter'}"
             if not ok:
+                hand = _handoffs(sym, p)
+                if not mine and hand:
+                    res.undecide("C13.R6", f"{fi.relpath}::{fi.qualname}::lookup of {p}", f"`{p}` is handed to `{norm(hand[0].node, 60)}` in {hand[0].ctx.qualname}, which the symbolic run could not follow, and no graph lookup of it was seen: the lookup may happen in there", where(hand[0].ctx, hand[0].node))
+                    continue
                 if mine and not live:
                     detail += f": the error of `{norm(mine[0].node, 50)}` for an unknown node is caught by a handler ({', '.join(sorted(set(mine[0].handlers) & CATCHES_LOOKUP))})"
                 elif live:
-                    detail += f" (the lookup `{norm(live[0].node, 40)}` in {live[0].ctx.qualname} only happens under `{show(live[0].cond)[:160]}`)"
+                    detail += f" (the lookup `{norm(live[0][0].node, 40)}` in {live[0][0].ctx.qualname} only happens under `{show(live[0][1])[:160]}`)"
                 detail += " - a rule naming a module that does not exist gets a verdict instead of a lookup error"
             res.add("C13.R6", f"{fi.relpath}::{fi.qualname}::lookup of {p}", ok, detail, loc, kind="dominance")
     res.floor("C13.R6", 3, n)
+
+
+def _iteration_proves(lc: S.LoopCtx, inside: list) -> Formula:
+    """Disjunction of the conditions (relative to the whole path) under which one iteration of `lc` has certified its element."""
+    return f_or([c for _ev, c, _d in inside])
 
 
 # --------------------------------------------------------------------------- R3 / R4: who raises AssertionError, who catches what
